@@ -251,3 +251,252 @@ Proof.
   - unfold deliv. assert (nth_error ps1 k = None) as ->; [|reflexivity].
     apply nth_error_None. lia.
 Qed.
+
+(** ------------------------------------------------------------------ *)
+(** A tick is a sequence of moves, labelled (source port, destination port, message). *)
+Definition lmove := (nat * nat * msg)%type.
+Inductive moves : list port -> list lmove -> list port -> Prop :=
+| moves_nil ps : moves ps [] ps
+| moves_snoc ps L ps1 i j m ps2 :
+    moves ps L ps1 -> move i j m ps1 ps2 -> moves ps (L ++ [(i, j, m)]) ps2.
+
+Definition dl_of (L : list lmove) : dlog := map (fun t => (snd (fst t), snd t)) L.
+Definition from_k (k : nat) (L : list lmove) : list msg :=
+  map snd (filter (fun t => Nat.eqb (fst (fst t)) k) L).
+Definition to_k (k : nat) (L : list lmove) : list msg :=
+  map snd (filter (fun t => Nat.eqb (snd (fst t)) k) L).
+
+Lemma dl_of_app a b : dl_of (a ++ b) = dl_of a ++ dl_of b.
+Proof. unfold dl_of. apply map_app. Qed.
+Lemma from_k_app k a b : from_k k (a ++ b) = from_k k a ++ from_k k b.
+Proof. unfold from_k. rewrite filter_app, map_app. reflexivity. Qed.
+Lemma to_k_app k a b : to_k k (a ++ b) = to_k k a ++ to_k k b.
+Proof. unfold to_k. rewrite filter_app, map_app. reflexivity. Qed.
+
+Definition reaches (ps0 : list port) (dl0 : dlog) (ps : list port) (dl : dlog) : Prop :=
+  exists L, moves ps0 L ps /\ dl = dl0 ++ dl_of L.
+
+Lemma forward_port_moves ps0 dl0 i ps pr cb dl pr' ps' cb' dl' :
+  reaches ps0 dl0 ps dl -> forward_port i ps pr cb dl = FmOk pr' ps' cb' dl' -> reaches ps0 dl0 ps' dl'.
+Proof.
+  intros Hr H. unfold forward_port in H.
+  pose proof (forward_many_ind (reaches ps0 dl0) i) as Hind.
+  eapply Hind; [|exact Hr|exact H].
+  intros ps1 dl1 j m ps2 (L & HL & ->) Hm. exists (L ++ [(i, j, m)]). split.
+  - econstructor; eauto.
+  - rewrite dl_of_app, app_assoc. reflexivity.
+Qed.
+
+Lemma tick_loop_moves ps0 dl0 todo : forall ps pr cb dl pr' ps' cb' dl',
+  reaches ps0 dl0 ps dl -> tick_loop todo ps pr cb dl = FmOk pr' ps' cb' dl' -> reaches ps0 dl0 ps' dl'.
+Proof.
+  induction todo as [|i r IH]; intros ps pr cb dl pr' ps' cb' dl' Hr H; cbn [tick_loop] in H.
+  - injection H as _ <- _ <-. exact Hr.
+  - destruct (forward_port i ps pr cb dl) as [pr1 ps1 cb1 dl1|] eqn:Ef; [|discriminate].
+    eapply IH; [|exact H]. eapply forward_port_moves; eauto.
+Qed.
+
+Lemma tick_moves c pr c' cb dl : tick c = TickOk pr c' cb dl ->
+  exists L, moves (c_ports c) L (c_ports c') /\ dl = dl_of L.
+Proof.
+  unfold tick. destruct (length (c_ports c)) as [|n0]; [discriminate|].
+  destruct (tick_loop (order (S n0) (c_next c)) (c_ports c) false [] []) as [pr1 ps1 cb1 dl1|] eqn:El; [|discriminate].
+  intro H. injection H as _ <- _ <-. cbn [c_ports].
+  destruct (tick_loop_moves (c_ports c) [] _ _ _ _ _ _ _ _ _ (ex_intro _ [] (conj (moves_nil _) eq_refl)) El)
+    as (L & HL & ->). exists L. split; [exact HL|reflexivity].
+Qed.
+
+(** The transfer law of a move sequence: nothing lost, duplicated, altered or reordered.
+    For every port k: what entered its incoming buffer is, in order, the messages moved
+    to k; what left its outgoing buffer is, in order, the messages moved from k — always
+    taken from the head. *)
+Lemma moves_law ps L ps' : moves ps L ps' ->
+  length ps' = length ps /\ map p_name ps' = map p_name ps /\
+  forall k p, nth_error ps k = Some p -> exists p', nth_error ps' k = Some p' /\
+    p_name p' = p_name p /\ b_cap (p_in p') = b_cap (p_in p) /\ b_cap (p_out p') = b_cap (p_out p) /\
+    content (p_in p') = content (p_in p) ++ map Some (to_k k L) /\
+    content (p_out p) = map Some (from_k k L) ++ content (p_out p').
+Proof.
+  induction 1 as [ps|ps L ps1 i j m ps2 HL IH Hm].
+  - split; [reflexivity|]. split; [reflexivity|]. intros k p Hk. exists p.
+    cbn. rewrite app_nil_r. repeat split; auto.
+  - destruct IH as (Hlen & Hnames & IH).
+    destruct (move_facts _ _ _ _ _ Hm) as (Hlen2 & Hnames2 & Hports & (src & Es & Hh)).
+    split; [congruence|]. split; [congruence|].
+    intros k p Hk. destruct (IH k p Hk) as (p1 & Hk1 & Hn1 & Hci1 & Hco1 & Hin1 & Hout1).
+    destruct (Hports k p1 Hk1) as (p2 & Hk2 & Hn2 & Hci2 & Hco2 & Hin2 & Hout2).
+    exists p2. split; [exact Hk2|]. split; [congruence|]. split; [congruence|]. split; [congruence|].
+    rewrite to_k_app, from_k_app, !map_app. unfold to_k at 2, from_k at 2. cbn [filter fst snd].
+    split.
+    + rewrite Hin2, Hin1, <- app_assoc. destruct (Nat.eqb j k) eqn:E1, (Nat.eqb k j) eqn:E2;
+        try reflexivity; apply Nat.eqb_eq in E1 || apply Nat.eqb_eq in E2; subst;
+        rewrite Nat.eqb_refl in *; discriminate.
+    + rewrite Hout1, <- app_assoc. f_equal.
+      destruct (Nat.eqb i k) eqn:E1.
+      * apply Nat.eqb_eq in E1. subst k. rewrite Nat.eqb_refl in Hout2.
+        rewrite Es in Hk1. injection Hk1 as <-. rewrite Hout2.
+        destruct (content (p_out src)); cbn in *; [discriminate|]. congruence.
+      * replace (Nat.eqb k i) with false in Hout2 by (symmetry; rewrite Nat.eqb_sym; exact E1).
+        rewrite Hout2. reflexivity.
+Qed.
+
+(** delivered only to the port named by Dst *)
+Lemma find_port_from_spec name ps : forall k j, find_port_from k name ps = Some j ->
+  (k <= j)%nat /\ exists p, nth_error ps (j - k) = Some p /\ p_name p = name.
+Proof.
+  induction ps as [|p r IH]; intros k j H; cbn [find_port_from] in H; [discriminate|].
+  destruct (find_port_from (S k) name r) as [j'|] eqn:E.
+  - injection H as <-. destruct (IH (S k) j' E) as (Hle & q & Hq & Hn). split; [lia|].
+    exists q. split; [|exact Hn]. replace (j' - k)%nat with (S (j' - S k)) by lia. exact Hq.
+  - destruct (p_name p =? name)%N eqn:En; [|discriminate]. injection H as <-.
+    split; [lia|]. exists p. rewrite Nat.sub_diag. split; [reflexivity|apply N.eqb_eq; exact En].
+Qed.
+
+Lemma moves_right_port ps L ps' : moves ps L ps' ->
+  forall i j m, In (i, j, m) L -> exists p, nth_error ps j = Some p /\ p_name p = m_dst m.
+Proof.
+  induction 1 as [ps|ps L ps1 i0 j0 m0 ps2 HL IH Hm]; intros i j m Hin; [destruct Hin|].
+  apply in_app_iff in Hin. destruct Hin as [Hin|[Heq|[]]]; [eauto|]. injection Heq as -> -> ->.
+  destruct Hm as (src & dst & dst' & ns1 & src1 & v & src2 & ns2 & u & _ & _ & Ef & _).
+  destruct (moves_law _ _ _ HL) as (_ & Hnames & _).
+  unfold find_port in Ef. rewrite (find_port_from_names 0 _ ps1 ps Hnames) in Ef.
+  destruct (find_port_from_spec _ _ _ _ Ef) as (_ & p & Hp & Hn). rewrite Nat.sub_0_r in Hp. eauto.
+Qed.
+
+(** ------------------------------------------------------------------ *)
+(** History level: every schedule of sends, retrievals and ticks. *)
+Definition alive (c : conn) (a : action) : bool :=
+  match snd (step c a) with Some _ => true | None => false end.
+
+(** what port k's owner put into / took out of port k in one action *)
+Definition sent_k (k : nat) (c : conn) (a : action) : list omsg :=
+  match a with
+  | ASend i m => if Nat.eqb i k && alive c a &&
+                    match nth_error (c_ports c) i with Some p => can_send p | None => false end
+                 then [Some m] else []
+  | _ => []
+  end.
+Definition got_k (k : nat) (c : conn) (a : action) : list omsg :=
+  match a with
+  | ARetrieve i => if Nat.eqb i k && alive c a
+                   then match nth_error (c_ports c) i with Some p => firstn 1 (content (p_in p)) | None => [] end
+                   else []
+  | _ => []
+  end.
+
+Lemma firstn1_tl {A} (l : list A) : l = firstn 1 l ++ tl l.
+Proof. destruct l; reflexivity. Qed.
+
+Lemma nth_set_nth_cases {A} i k (x : A) l y : nth_error l k = Some y ->
+  nth_error (set_nth i x l) k = Some (if Nat.eqb i k then x else y).
+Proof.
+  intro H. destruct (Nat.eqb i k) eqn:E.
+  - apply Nat.eqb_eq in E. subst. apply nth_set_nth_eq. eapply nth_error_lt; eauto.
+  - apply Nat.eqb_neq in E. rewrite nth_set_nth_neq by exact E. exact H.
+Qed.
+
+(** one action *)
+Lemma step_law c a c' : snd (step c a) = Some c' ->
+  exists L, deliv1 c a = dl_of L /\
+    (forall i j m, In (i, j, m) L -> exists p, nth_error (c_ports c) j = Some p /\ p_name p = m_dst m) /\
+    forall k p, nth_error (c_ports c) k = Some p -> exists p', nth_error (c_ports c') k = Some p' /\
+      p_name p' = p_name p /\
+      content (p_out p) ++ sent_k k c a = map Some (from_k k L) ++ content (p_out p') /\
+      content (p_in p) ++ map Some (to_k k L) = got_k k c a ++ content (p_in p').
+Proof.
+  intro H. unfold deliv1, sent_k, got_k, alive. rewrite H.
+  destruct a as [i m|i| |]; cbn [step] in *.
+  - (* send *)
+    exists []. split; [destruct (nth_error (c_ports c) i) as [p|]; [destruct (can_send p); [destruct (send (Some m) p)|]|]; reflexivity|].
+    split; [intros ? ? ? []|].
+    destruct (nth_error (c_ports c) i) as [pi|] eqn:Ei; [|discriminate].
+    destruct (can_send pi) eqn:Ecs.
+    + destruct (send (Some m) pi) as [u pi' ns| |] eqn:Es; try discriminate. injection H as <-. cbn [c_ports].
+      destruct (send_spec _ _ _ _ _ Es) as (_ & _ & Hout & _ & Hin & Hname & _).
+      intros k p Hk. rewrite (nth_set_nth_cases i k pi' _ p Hk).
+      destruct (Nat.eqb i k) eqn:E; cbn [andb].
+      * apply Nat.eqb_eq in E. subst k. rewrite Ei in Hk. injection Hk as <-.
+        exists pi'. split; [reflexivity|]. split; [exact Hname|]. cbn. rewrite Hout, Hin, app_nil_r. auto.
+      * exists p. cbn. rewrite !app_nil_r. auto.
+    + injection H as <-. intros k p Hk. exists p. cbn. rewrite andb_false_r, !app_nil_r. auto.
+  - (* retrieve *)
+    exists []. split; [destruct (nth_error (c_ports c) i) as [p|]; [destruct (retrieve_incoming p)|]; reflexivity|].
+    split; [intros ? ? ? []|].
+    destruct (nth_error (c_ports c) i) as [pi|] eqn:Ei; [|discriminate].
+    destruct (retrieve_incoming pi) as [v pi' ns| |] eqn:Er; try discriminate. injection H as <-. cbn [c_ports].
+    destruct (retrieve_incoming_spec _ _ _ _ Er) as (Hin & _ & Hout & Hname & _).
+    intros k p Hk. rewrite (nth_set_nth_cases i k pi' _ p Hk).
+    destruct (Nat.eqb i k) eqn:E; cbn [andb].
+    + apply Nat.eqb_eq in E. subst k. rewrite Ei in Hk. injection Hk as <-.
+      exists pi'. split; [reflexivity|]. split; [exact Hname|]. cbn. rewrite Hout, Hin, !app_nil_r.
+      split; [reflexivity|apply firstn1_tl].
+    + exists p. cbn. rewrite !app_nil_r. auto.
+  - (* tick *)
+    destruct (tick c) as [pr c1 cb dl|] eqn:Et; [|discriminate]. injection H as <-.
+    destruct (tick_moves _ _ _ _ _ Et) as (L & HL & ->).
+    exists L. split; [reflexivity|]. split; [intros i j m Hin; eapply moves_right_port; eauto|].
+    destruct (moves_law _ _ _ HL) as (_ & _ & Hlaw).
+    intros k p Hk. destruct (Hlaw k p Hk) as (p' & Hk' & Hn & _ & _ & Hin & Hout).
+    exists p'. split; [exact Hk'|]. split; [exact Hn|]. cbn. rewrite app_nil_r. split; [exact Hout|]. rewrite Hin. reflexivity.
+  - (* snapshot *)
+    injection H as <-. exists []. split; [reflexivity|]. split; [intros ? ? ? []|].
+    intros k p Hk. exists p. cbn. rewrite !app_nil_r. auto.
+Qed.
+
+Lemma step_dead_logs c a k : snd (step c a) = None -> deliv1 c a = [] /\ sent_k k c a = [] /\ got_k k c a = [].
+Proof.
+  intro H. unfold deliv1, sent_k, got_k, alive. rewrite H.
+  destruct a as [i m|i| |]; cbn [step] in *; repeat split; try reflexivity;
+    try (rewrite andb_false_r; reflexivity).
+  destruct (tick c); [discriminate|reflexivity].
+Qed.
+
+(** all actions of a history: the delivery log can be labelled with source ports so that,
+    for every port k, (stored + sent by k's owner) = (moved away from k ++ still stored)
+    on the outgoing side and (stored + moved to k) = (retrieved by k's owner ++ still
+    stored) on the incoming side — as ordered lists of unmodified messages. *)
+Lemma history_law h : forall c,
+  exists L, deliv_log c h = dl_of L /\
+    (forall i j m, In (i, j, m) L -> exists p, nth_error (c_ports c) j = Some p /\ p_name p = m_dst m) /\
+    forall k p, nth_error (c_ports c) k = Some p -> exists p', nth_error (c_ports (final c h)) k = Some p' /\
+      p_name p' = p_name p /\
+      content (p_out p) ++ log (sent_k k) c h = map Some (from_k k L) ++ content (p_out p') /\
+      content (p_in p) ++ map Some (to_k k L) = log (got_k k) c h ++ content (p_in p').
+Proof.
+  induction h as [|a r IH]; intro c.
+  - exists []. split; [reflexivity|]. split; [intros ? ? ? []|]. intros k p Hk. exists p. cbn. rewrite !app_nil_r. auto.
+  - unfold deliv_log. cbn [log final]. destruct (snd (step c a)) as [c1|] eqn:Es.
+    + destruct (step_law c a c1 Es) as (L1 & Hd1 & Hr1 & Hl1).
+      destruct (IH c1) as (L2 & Hd2 & Hr2 & Hl2).
+      exists (L1 ++ L2). split; [rewrite dl_of_app, Hd1; unfold deliv_log in Hd2; rewrite Hd2; reflexivity|].
+      split.
+      { intros i j m Hin. apply in_app_iff in Hin. destruct Hin as [Hin|Hin]; [eauto|].
+        destruct (Hr2 i j m Hin) as (p1 & Hp1 & Hn1).
+        (* names are preserved by a step: find the same port in c *)
+        destruct (nth_error (c_ports c) j) as [p0|] eqn:E0.
+        - destruct (Hl1 j p0 E0) as (p1' & Hp1' & Hn & _). rewrite Hp1 in Hp1'. injection Hp1' as <-.
+          exists p0. split; [reflexivity|congruence].
+        - exfalso. (* the port list does not grow *)
+          assert (Hlen : length (c_ports c1) = length (c_ports c)).
+          { clear - Es. destruct a as [i m|i| |]; cbn [step] in Es.
+            - destruct (nth_error (c_ports c) i) as [p|]; [|discriminate].
+              destruct (can_send p); [destruct (send (Some m) p); try discriminate|];
+                injection Es as <-; cbn [c_ports]; rewrite ?set_nth_length; reflexivity.
+            - destruct (nth_error (c_ports c) i) as [p|]; [|discriminate].
+              destruct (retrieve_incoming p); try discriminate.
+              injection Es as <-; cbn [c_ports]; rewrite ?set_nth_length; reflexivity.
+            - destruct (tick c) as [pr c2 cb dl|] eqn:Et; [|discriminate]. injection Es as <-.
+              destruct (tick_progress _ _ _ _ _ Et) as (_ & _ & Hl). exact Hl.
+            - injection Es as <-. reflexivity. }
+          apply nth_error_None in E0. pose proof (nth_error_lt _ _ _ Hp1). lia. }
+      intros k p Hk. destruct (Hl1 k p Hk) as (p1 & Hk1 & Hn1 & Ho1 & Hi1).
+      destruct (Hl2 k p1 Hk1) as (p2 & Hk2 & Hn2 & Ho2 & Hi2).
+      exists p2. split; [exact Hk2|]. split; [congruence|].
+      rewrite from_k_app, to_k_app, !map_app. split.
+      * rewrite app_assoc, Ho1, <- !app_assoc, Ho2. reflexivity.
+      * rewrite app_assoc, Hi1, <- !app_assoc, Hi2. reflexivity.
+    + exists []. destruct (step_dead_logs c a 0 Es) as (Hd & _). rewrite Hd.
+      split; [reflexivity|]. split; [intros ? ? ? []|].
+      intros k p Hk. exists p. destruct (step_dead_logs c a k Es) as (_ & Hs & Hg). rewrite Hs, Hg.
+      cbn. rewrite !app_nil_r. auto.
+Qed.
